@@ -658,6 +658,71 @@ pub fn gen_props_sized(r: &mut Rng, ctx: u8, target: usize) -> RP {
 /// G3: a packet whose remaining length is exactly `target` (target >= 8), built from a free-length field.
 pub fn gen_sized(r: &mut Rng, fam: Fam, target: usize, shape: u8) -> RP {
     let v5 = fam == Fam::V5;
+    // shapes 3..=7 (dense sweep): the free length sits in a string, a list or a property section
+    // instead of the payload; they need a little room and fall back to shape 0 otherwise
+    let shape = if shape % 8 >= 3 && (target < 40 || (shape % 8 == 4 && target > 65_000)) { 0 } else { shape % 8 };
+    match shape {
+        3 => {
+            // PUBLISH QoS0 with a long topic, the rest in the payload
+            let fixed = 2 + if v5 { 1 } else { 0 };
+            let tl = (target - fixed).min(65_535);
+            let mut topic = vec![b'x'; tl];
+            for i in (7..tl).step_by(61) {
+                topic[i] = b'/';
+            }
+            return RP::Publish { dup: false, qos: 0, retain: false, topic, pid: None, props: Vec::new(), payload: r.bytes_cheap(target - fixed - tl) };
+        }
+        4 => {
+            // CONNECT whose client identifier takes the free length
+            let (name, level): (&[u8], u8) = if v5 { (b"MQTT", 5) } else { (b"MQTT", 4) };
+            let fixed = 2 + 4 + 1 + 1 + 2 + if v5 { 1 } else { 0 } + 2;
+            return RP::Connect {
+                name: name.to_vec(),
+                level,
+                clean: true,
+                keep_alive: 30,
+                client_id: text_exact(r, target - fixed),
+                will: None,
+                username: None,
+                password: None,
+                props: Vec::new(),
+            };
+        }
+        5 | 6 => {
+            // SUBSCRIBE (entries of 2 + len + 1) / UNSUBSCRIBE (entries of 2 + len): many one-letter
+            // filters, the last one sized so that the total is exact
+            let per = if shape == 5 { 4 } else { 3 };
+            let fixed = 2 + if v5 { 1 } else { 0 };
+            let body = target - fixed;
+            let k = body / per;
+            let rem = body % per;
+            let mut filters: Vec<Vec<u8>> = vec![b"a".to_vec(); k];
+            if let Some(last) = filters.last_mut() {
+                *last = vec![b'b'; 1 + rem];
+            }
+            return if shape == 5 {
+                RP::Subscribe { pid: 3, props: Vec::new(), topics: filters.into_iter().enumerate().map(|(i, f)| (f, (i % 3) as u8)).collect() }
+            } else {
+                RP::Unsubscribe { pid: 3, props: Vec::new(), topics: filters }
+            };
+        }
+        7 => {
+            if !v5 {
+                // v3: a topic made of many one-letter levels
+                let fixed = 2;
+                let tl = (target - fixed).min(65_535);
+                let topic: Vec<u8> = (0..tl).map(|i| if i % 2 == 1 { b'/' } else { b'l' }).collect();
+                return RP::Publish { dup: false, qos: 0, retain: false, topic, pid: None, props: Vec::new(), payload: r.bytes_cheap(target - fixed - tl) };
+            }
+            // v5: PUBLISH with many 7-byte user properties, the rest in the payload
+            let room = target - 3 - 4;
+            let p = (room / 7).min(3000) * 7;
+            let w = varint_enc(p as u64).len();
+            let props: Props = (0..p / 7).map(|_| (USER_PROPERTY, PV::Pair(b"k".to_vec(), b"v".to_vec()))).collect();
+            return RP::Publish { dup: false, qos: 0, retain: false, topic: b"t".to_vec(), pid: None, props, payload: r.bytes_cheap(target - 3 - w - p) };
+        }
+        _ => {}
+    }
     match shape % 3 {
         0 => {
             // PUBLISH QoS0: 2 + topic(1) [+ 1 property length] + payload
@@ -701,5 +766,23 @@ impl Rng {
         let rest = n - v.len();
         v.extend_from_slice(&block[..rest]);
         v
+    }
+}
+
+#[cfg(test)]
+mod sized_tests {
+    use super::*;
+    #[test]
+    fn gen_sized_hits_the_target_exactly() {
+        let mut r = Rng::new(5);
+        for fam in [Fam::V3, Fam::V5] {
+            for shape in 0..8u8 {
+                for target in (8..3000).chain([16_383, 16_384, 65_000, 65_001, 70_000, 140_001]) {
+                    let rp = gen_sized(&mut r, fam, target, shape);
+                    let f = crate::refenc::ref_encode(fam, &rp, &crate::refenc::Spelling::default());
+                    assert_eq!(f.body_len(), target, "fam {:?} shape {} target {}", fam, shape, target);
+                }
+            }
+        }
     }
 }
